@@ -139,6 +139,11 @@ def call_spec(ex, name, e, st):
 # ---------------------------------------------------------------------------------------------
 
 def method_call(ex, recv, name, args, kw, st, node):
+    special = getattr(ex, 'special_method', None)
+    if special is not None:
+        r = special(recv, name, args, kw, st, node)
+        if r is not None:
+            return r
     out = []
     s_case = st.assume(Is('VStr', recv))
     if s_case is not None:
@@ -873,5 +878,6 @@ SPEC_BUILTINS = {
     'is_none': _spec_pred(lambda v: Is('VNone', v)),
     'is_float': _spec_pred(lambda v: Is('VFloat', v)),
     'same': _spec_pred(lambda a, b: Eq(a, b)),
+    'is_ref': _spec_pred(lambda v: Is('VRef', v)),
     'all': s_all, 'any': s_any, 'implies': s_implies,
 }
